@@ -10,7 +10,7 @@ import random
 repo, seed, n = sys.argv[1], int(sys.argv[2]), int(sys.argv[3])
 sys.path.insert(0, repo + '/src')
 import numpy as np  # noqa: E402
-from dtaidistance import dtw, dtw_ndim  # noqa: E402
+from dtaidistance import dtw, dtw_ndim, dtw_cc  # noqa: E402
 
 rng = random.Random(seed)
 VALS = [0.0, 1.0, -1.0, 2.0, 0.5, 3.0, -2.5]
@@ -63,22 +63,40 @@ ROUTES = {
     'c.warping_path_fast': lambda a, b, kw: dtw.warping_path_fast(a, b, include_distance=True, **kw),
     'py.best_path(warping_paths)': lambda a, b, kw: (lambda d, m: (dtw.best_path(m), d))(*dtw.warping_paths(a, b, **kw)),
     'py.best_path(warping_paths_fast)': lambda a, b, kw: (lambda d, m: (dtw.best_path(m), d))(*dtw.warping_paths_fast(a, b, **kw)),
+    # traceback over the compact matrix in the internal representation (what dtw_cc.warping_path does internally)
+    'c.best_path_compact': lambda a, b, kw: (
+        dtw_cc.best_path_compact(dtw.warping_paths_fast(a, b, compact=True, keep_int_repr=True, **kw)[1], len(a), len(b), **DTWS(a, b, kw)),
+        dtw.warping_paths_fast(a, b, **kw)[0]),
 }
+
+
+def DTWS(a, b, kw):
+    return dtw.DTWSettings.for_dtw(a, b, **kw).c_kwargs()
+
 evaluations, distinct, problems, samples = 0, set(), [], []
 for case in range(n):
-    l1, l2 = rng.randint(1, 6), rng.randint(1, 6)
+    kw = {}
+    if case % 2 == 0:
+        # longer series with a narrow band (regions C / D of the compact layout), few other options
+        l1, l2 = rng.randint(4, 10), rng.randint(4, 10)
+        if rng.random() < 0.4:
+            l2 = l1
+        kw['window'] = rng.randint(1, 3)
+        if rng.random() < 0.3:
+            kw['penalty'] = rng.choice([0.5, 2.0])
+    else:
+        l1, l2 = rng.randint(1, 6), rng.randint(1, 6)
+        if rng.random() < 0.5:
+            kw['window'] = rng.randint(1, max(l1, l2) + 1)
+        if rng.random() < 0.4:
+            kw['penalty'] = rng.choice([0.5, 2.0])
+        if rng.random() < 0.4:
+            p = tuple(rng.randint(0, min(2, m - 1)) for m in (l1, l1, l2, l2))
+            kw['psi'] = p
+        if rng.random() < 0.3:
+            kw['inner_dist'] = 'euclidean'
     a = np.array([rng.choice(VALS) for _ in range(l1)])
     b = np.array([rng.choice(VALS) for _ in range(l2)])
-    kw = {}
-    if rng.random() < 0.5:
-        kw['window'] = rng.randint(1, max(l1, l2) + 1)
-    if rng.random() < 0.4:
-        kw['penalty'] = rng.choice([0.5, 2.0])
-    if rng.random() < 0.4:
-        p = tuple(rng.randint(0, min(2, m - 1)) for m in (l1, l1, l2, l2))
-        kw['psi'] = p
-    if rng.random() < 0.3:
-        kw['inner_dist'] = 'euclidean'
     for name, fn in ROUTES.items():
         if name == 'py.warping_path' and 'penalty' in kw and False:
             continue
